@@ -664,7 +664,7 @@ class _PackedBoolArray:
 
     def _test_bits_at_locs(self, locs):
         if len(locs) == 0:
-            return np.zeros([], dtype=np.bool_)
+            return np.zeros(0, dtype=np.bool_)
 
         if locs.min() < 0 or locs.max() >= self.size:
             raise IndexError("Location indices out of range.")
